@@ -646,6 +646,13 @@ impl Database {
             })
             .collect();
 
+        let non_unique_index_names: Vec<String> = table_def
+            .indexes()
+            .iter()
+            .filter(|idx| idx.index_type() == IndexType::BTree && !idx.is_unique())
+            .map(|idx| idx.name().to_string())
+            .collect();
+
         let unique_columns: Vec<(usize, String, bool)> = columns
             .iter()
             .enumerate()
@@ -755,12 +762,27 @@ impl Database {
                                     Self::encode_value_as_key(value, key_buf);
                                 }
                             }
+                            if non_unique_index_names.contains(index_name) {
+                                key_buf.extend_from_slice(&entry.key);
+                            }
                             let _ = index_btree.delete(key_buf);
                         }
                     }
                 }
             }
         } else if let Some(old_value) = undo_data {
+            let undone_row_values: Option<Vec<OwnedValue>> =
+                if let Some(raw_value) = btree.get(&entry.key)? {
+                    let user_data = get_user_data(raw_value);
+                    if let Ok(record) = RecordView::new(user_data, &schema) {
+                        OwnedValue::extract_row_from_record(&record, &columns).ok()
+                    } else {
+                        None
+                    }
+                } else {
+                    None
+                };
+
             btree.delete(&entry.key)?;
             btree.insert(&entry.key, old_value)?;
             drop(table_storage);
@@ -776,38 +798,39 @@ impl Database {
 
             if let Some(row_values) = old_row_values {
                 for (col_idx, index_name, _is_pk) in &unique_columns {
-                    if file_manager.index_exists(&schema_name, &table_name, index_name) {
-                        if let Some(value) = row_values.get(*col_idx) {
-                            if !value.is_null() {
-                                let index_storage_arc = file_manager.index_data_mut(
-                                    &schema_name,
-                                    &table_name,
-                                    index_name,
-                                )?;
-                                let mut index_storage = index_storage_arc.write();
+                    if !file_manager.index_exists(&schema_name, &table_name, index_name) {
+                        continue;
+                    }
+                    let undone = undone_row_values
+                        .as_ref()
+                        .and_then(|v| v.get(*col_idx))
+                        .filter(|v| !v.is_null());
+                    let restored = row_values.get(*col_idx).filter(|v| !v.is_null());
+                    if undone.is_none() && restored.is_none() {
+                        continue;
+                    }
 
-                                let index_root_page = {
-                                    let page0 = index_storage.page(0)?;
-                                    let header = IndexFileHeader::from_bytes(page0)?;
-                                    header.root_page()
-                                };
+                    let index_storage_arc =
+                        file_manager.index_data_mut(&schema_name, &table_name, index_name)?;
+                    let mut index_storage = index_storage_arc.write();
 
-                                let mut index_btree =
-                                    BTree::new(&mut *index_storage, index_root_page)?;
-                                key_buf.clear();
-                                Self::encode_value_as_key(value, key_buf);
+                    let index_root_page = {
+                        let page0 = index_storage.page(0)?;
+                        let header = IndexFileHeader::from_bytes(page0)?;
+                        header.root_page()
+                    };
 
-                                let pk_idx = columns
-                                    .iter()
-                                    .position(|c| c.has_constraint(&Constraint::PrimaryKey));
-                                if let Some(pk_idx) = pk_idx {
-                                    if let Some(OwnedValue::Int(pk_val)) = row_values.get(pk_idx) {
-                                        let row_id_bytes = (*pk_val as u64).to_be_bytes();
-                                        let _ = index_btree.insert(key_buf, &row_id_bytes);
-                                    }
-                                }
-                            }
-                        }
+                    let mut index_btree = BTree::new(&mut *index_storage, index_root_page)?;
+
+                    if let Some(value) = undone {
+                        key_buf.clear();
+                        Self::encode_value_as_key(value, key_buf);
+                        let _ = index_btree.delete(key_buf);
+                    }
+                    if let Some(value) = restored {
+                        key_buf.clear();
+                        Self::encode_value_as_key(value, key_buf);
+                        let _ = index_btree.insert(key_buf, &entry.key);
                     }
                 }
 
@@ -815,43 +838,57 @@ impl Database {
                     if col_indices.is_empty() {
                         continue;
                     }
-                    if file_manager.index_exists(&schema_name, &table_name, index_name) {
-                        let all_non_null = col_indices
+                    if !file_manager.index_exists(&schema_name, &table_name, index_name) {
+                        continue;
+                    }
+                    let undone = undone_row_values.as_ref().filter(|vals| {
+                        col_indices
                             .iter()
-                            .all(|&idx| row_values.get(idx).is_some_and(|v| !v.is_null()));
+                            .all(|&idx| vals.get(idx).is_some_and(|v| !v.is_null()))
+                    });
+                    let restored_non_null = col_indices
+                        .iter()
+                        .all(|&idx| row_values.get(idx).is_some_and(|v| !v.is_null()));
+                    if undone.is_none() && !restored_non_null {
+                        continue;
+                    }
 
-                        if all_non_null {
-                            let index_storage_arc = file_manager.index_data_mut(
-                                &schema_name,
-                                &table_name,
-                                index_name,
-                            )?;
-                            let mut index_storage = index_storage_arc.write();
+                    let index_storage_arc =
+                        file_manager.index_data_mut(&schema_name, &table_name, index_name)?;
+                    let mut index_storage = index_storage_arc.write();
 
-                            let index_root_page = {
-                                let page0 = index_storage.page(0)?;
-                                let header = IndexFileHeader::from_bytes(page0)?;
-                                header.root_page()
-                            };
+                    let index_root_page = {
+                        let page0 = index_storage.page(0)?;
+                        let header = IndexFileHeader::from_bytes(page0)?;
+                        header.root_page()
+                    };
 
-                            let mut index_btree = BTree::new(&mut *index_storage, index_root_page)?;
-                            key_buf.clear();
-                            for &col_idx in col_indices {
-                                if let Some(value) = row_values.get(col_idx) {
-                                    Self::encode_value_as_key(value, key_buf);
-                                }
-                            }
+                    let mut index_btree = BTree::new(&mut *index_storage, index_root_page)?;
+                    let row_key_suffix = non_unique_index_names.contains(index_name);
 
-                            let pk_idx = columns
-                                .iter()
-                                .position(|c| c.has_constraint(&Constraint::PrimaryKey));
-                            if let Some(pk_idx) = pk_idx {
-                                if let Some(OwnedValue::Int(pk_val)) = row_values.get(pk_idx) {
-                                    let row_id_bytes = (*pk_val as u64).to_be_bytes();
-                                    let _ = index_btree.insert(key_buf, &row_id_bytes);
-                                }
+                    if let Some(vals) = undone {
+                        key_buf.clear();
+                        for &col_idx in col_indices {
+                            if let Some(value) = vals.get(col_idx) {
+                                Self::encode_value_as_key(value, key_buf);
                             }
                         }
+                        if row_key_suffix {
+                            key_buf.extend_from_slice(&entry.key);
+                        }
+                        let _ = index_btree.delete(key_buf);
+                    }
+                    if restored_non_null {
+                        key_buf.clear();
+                        for &col_idx in col_indices {
+                            if let Some(value) = row_values.get(col_idx) {
+                                Self::encode_value_as_key(value, key_buf);
+                            }
+                        }
+                        if row_key_suffix {
+                            key_buf.extend_from_slice(&entry.key);
+                        }
+                        let _ = index_btree.insert(key_buf, &entry.key);
                     }
                 }
             }
